@@ -1,3 +1,41 @@
-(** placeholder *)
-From Xds Require Import Model.SysCheck.
-Theorem C03_placeholder : True. Proof. exact I. Qed.
+(** C03 — Requests always carry exactly the current interest set of their type.
+    Statements only; proofs are [exact] of lemmas in Proofs/SysProofs.v. *)
+From Xds Require Import Model.Base Model.Fqdn Model.Proto Model.Decode Model.Pick Model.Route Model.Mw Model.Sys Proofs.SysProofs.
+Open Scope string_scope.
+
+(** Every request a subscription change emits is of that type, is sent on the live stream, and lists exactly
+    the interest set as it is after the change. *)
+Theorem C03_request_carries_interest : forall s t n rm,
+  let '(s', rq) := watch s t n rm in
+  forall sq, In sq rq -> q_type (snd sq) = t /\ q_names (snd sq) = watched_names s' t /\ fst sq = s_stream s' /\ q_error (snd sq) = false.
+Proof. exact watch_request. Qed.
+Print Assumptions C03_request_carries_interest.
+
+(** The interest set of a type changes only by that name being added (subscription, lookup miss) or removed (eviction). *)
+Theorem C03_interest_change : forall s t n rm t',
+  watched_names (fst (watch s t n rm)) t' =
+  if rtype_eqb t' t then (if rm then sdel n (watched_names s t) else sadd n (watched_names s t)) else watched_names s t'.
+Proof. exact watch_interest. Qed.
+Print Assumptions C03_interest_change.
+
+(** A lookup that hits changes nothing and sends nothing; one that misses adds exactly its name. *)
+Theorem C03_lookup : forall s t n t',
+  let '(s', rq, r) := lookup s t n in
+  match r with
+  | LHit _ => watched_names s' t' = watched_names s t' /\ rq = []
+  | _ => watched_names s' t' = (if rtype_eqb t' t then sadd n (watched_names s t) else watched_names s t')
+  end.
+Proof. exact lookup_interest. Qed.
+Print Assumptions C03_lookup.
+
+(** Responses and reconnects never change the interest sets. *)
+Theorem C03_responses_keep_interest : forall c o s v n p, s_watched (fst (fst (handle_resp c o s v n p))) = s_watched s.
+Proof. exact handle_resp_interest. Qed.
+Print Assumptions C03_responses_keep_interest.
+
+Theorem C03_reconnect_keeps_interest : forall s, s_watched (fst (reconnect s)) = s_watched s.
+Proof. exact reconnect_interest. Qed.
+Print Assumptions C03_reconnect_keeps_interest.
+
+(** The replies to responses list the interest set too (see C02_ack / C02_nack: [q_names := ws] with
+    [ws] the interest set of the type), and so do the re-requests after a reconnect (C04_resubscribe). *)
